@@ -3,10 +3,10 @@
 (* acceptor of recordings of the real code (RequirementsTrace.tla).                          *)
 (*                                                                                           *)
 (* A version is a non-empty sequence of naturals (release segments), NoVer = <<>> = none.    *)
-(* A requirement line is a classified form [f |-> form, p |-> package, v |-> version]; the   *)
-(* driver renders forms to text (spec/../harness/drivers/c20.py FORMS), the code parses the   *)
-(* text.  Everything below is defined on the SET of lines of all files: order-free by        *)
-(* construction.                                                                             *)
+(* A requirement line is its text as a token sequence (plus the generator's label); the      *)
+(* driver writes the token texts (harness/drivers/c20.py tok_text), the code parses the text, *)
+(* Classify below says what the text means.  Everything is defined on the SET of lines of    *)
+(* all files: order-free by construction.                                                    *)
 EXTENDS Naturals, Sequences, FiniteSets, TLC
 
 NoVer == <<>>
@@ -17,24 +17,72 @@ LexLt(a, b, i) == IF i > Len(a) THEN FALSE ELSE IF a[i] < b[i] THEN TRUE ELSE IF
 VLt(a, b) == LET n == IF Len(a) > Len(b) THEN Len(a) ELSE Len(b) IN LexLt(Pad(a, n), Pad(b, n), 1)
 VEq(a, b) == ~VLt(a, b) /\ ~VLt(b, a)
 
-\* ---- line classification
+\* ---- the text of a line: a sequence of tokens [t, s, v]
+\*   t = "name" (s = package name) | "ver" (v = release segments) | "sym" (s = "==", ">=", ",", "#", ...)
+\*     | "ws" (s = blanks / tabs) | "word" (s = any other text without '#', e.g. foo, here, -r)
+\* The driver writes the concatenation of the token texts into the file (c20.py:tok_text); what a line
+\* MEANS is defined here, on the tokens: everything from the first '#' on is comment and is ignored,
+\* whatever it contains (specifiers, '==', names, versions, further '#'); white space is ignored;
+\* what is left is a pin `name == ver`, an unpinned `name`, or nothing the statement gives a meaning
+\* to (blank, unsupported / multiple specifiers, unparsable version): ignored.
+TName(p) == [t |-> "name", s |-> p, v |-> NoVer]
+TVer(v)  == [t |-> "ver", s |-> "", v |-> v]
+TSym(s)  == [t |-> "sym", s |-> s, v |-> NoVer]
+TWord(s) == [t |-> "word", s |-> s, v |-> NoVer]
+TWs      == [t |-> "ws", s |-> " ", v |-> NoVer]
+IsHash(x) == IF x.t = "sym" THEN x.s = "#" ELSE FALSE
+IsSym(x, s) == IF x.t = "sym" THEN x.s = s ELSE FALSE
+FirstHash(toks) == IF \E i \in 1..Len(toks) : IsHash(toks[i])
+                   THEN CHOOSE i \in 1..Len(toks) : IsHash(toks[i]) /\ \A j \in 1..(i - 1) : ~IsHash(toks[j])
+                   ELSE Len(toks) + 1
+CodePart(toks)    == SubSeq(toks, 1, FirstHash(toks) - 1)                 \* the line without its comment
+CommentPart(toks) == SubSeq(toks, FirstHash(toks), Len(toks))             \* <<>> or '#' and everything after it
+NoWs(toks) == SelectSeq(toks, LAMBDA x : x.t # "ws")
+Ignored == [k |-> "ignored", p |-> "", v |-> NoVer]
+Classify(toks) ==
+  LET b == NoWs(CodePart(toks)) IN
+  IF Len(b) = 1 THEN (IF b[1].t = "name" THEN [k |-> "unpinned", p |-> b[1].s, v |-> NoVer] ELSE Ignored)
+  ELSE IF Len(b) = 3 THEN (IF b[1].t = "name" /\ IsSym(b[2], "==") /\ b[3].t = "ver"
+                           THEN [k |-> "pin", p |-> b[1].s, v |-> b[3].v] ELSE Ignored)
+  ELSE Ignored
+\* a requirement line is [f, p, v, toks]: toks is the text; f, p, v is the generator's label (which form
+\* it meant to write) - never used to decide anything, only cross-checked (LabelOk) and used by the
+\* model's restatement of the clauses
+Meaning(l) == Classify(l.toks)
+Kind(l) == Meaning(l).k
+
+\* ---- the generator's labels (forms) and what each is meant to be; LabelOk: the text means what the label says
 PinForms      == {"pin", "pin_comment", "pin_padded", "spaced"}       \* pkg==1.0 | pkg==1.0  # c | "  pkg==1.0  " | pkg == 1.0
 UnpinnedForms == {"unpinned", "unpinned_comment"}                     \* pkg | pkg  # c
 IgnoredForms  == {"comment", "blank", "white",                        \* # pkg==9.9 | "" | "   "
                   "ge", "le", "gt", "lt", "compat", "ne",             \* pkg>=v pkg<=v pkg>v pkg<v pkg~=v pkg!=v  (unsupported specifiers)
                   "multi", "double",                                  \* pkg==v,<9 | pkg==v==9.9                  (multiple specifiers)
                   "badver", "emptyver", "triple"}                     \* pkg==foo | pkg== | pkg===v               (unparsable)
-Kind(l) == IF l.f \in PinForms THEN "pin" ELSE IF l.f \in UnpinnedForms THEN "unpinned" ELSE "ignored"
+FormKind(f) == IF f \in PinForms THEN "pin" ELSE IF f \in UnpinnedForms THEN "unpinned" ELSE "ignored"
+LabelOk(l) == LET m == Meaning(l) IN
+  /\ l.f \in PinForms \cup UnpinnedForms \cup IgnoredForms
+  /\ m.k = FormKind(l.f)
+  /\ (m.k # "ignored" => m.p = l.p)
+  /\ (m.k = "pin" => m.v = l.v)
+\* comments that could be mistaken for requirement text: they contain a specifier symbol, '==' or a comma
+SpecSyms == {"==", ">=", "<=", ">", "<", "~=", "!=", ",", "==="}
+HasComment(l) == CommentPart(l.toks) # <<>>
+TrickyToks(toks) == LET c == CommentPart(toks) IN \E i \in 1..Len(c) : IF c[i].t = "sym" THEN c[i].s \in SpecSyms ELSE FALSE
+TrickyComment(l) == TrickyToks(l.toks)
 
-\* ---- selection, on the SET L of lines (a file set in any order collapses to it)
+\* ---- selection, on the SET L of lines (a file set in any order collapses to it); M = what the lines mean
 LineSet(lines) == { lines[i] : i \in 1..Len(lines) }
-Mentioned(L) == { l.p : l \in { x \in L : Kind(x) # "ignored" } }
-Pins(L, p) == { l.v : l \in { x \in L : Kind(x) = "pin" /\ x.p = p } }
+Means(L) == { Meaning(l) : l \in L }
+MentionedM(M) == { m.p : m \in { x \in M : x.k # "ignored" } }
+PinsM(M, p) == { m.v : m \in { x \in M : x.k = "pin" /\ x.p = p } }
 Absent == [k |-> "absent"]
-Select(L, p) ==
-  IF Pins(L, p) # {} THEN [k |-> "pin", v |-> CHOOSE v \in Pins(L, p) : \A w \in Pins(L, p) : ~VLt(v, w)]
-  ELSE IF p \in Mentioned(L) THEN [k |-> "unpinned"]
+SelectM(M, p) ==
+  IF PinsM(M, p) # {} THEN [k |-> "pin", v |-> CHOOSE v \in PinsM(M, p) : \A w \in PinsM(M, p) : ~VLt(v, w)]
+  ELSE IF p \in MentionedM(M) THEN [k |-> "unpinned"]
   ELSE Absent
+Mentioned(L) == MentionedM(Means(L))
+Pins(L, p) == PinsM(Means(L), p)
+Select(L, p) == SelectM(Means(L), p)
 
 \* ---- install decision for one package
 \* inst: version present in the environment, rec: pyscript's record, want: Select(...), allow: allow_all_imports
